@@ -24,7 +24,7 @@ pub fn run(args: &Args) {
         }
         let mut sheets: Vec<String> = vec!["Sheet1".into(), "Data2".into()];
         if allow.contains("sheet-quoted") {
-            sheets.push((*rng.pick(&["My Sheet", "Q&A", "2024", "A1", "x-y", "日本", "a!b"])).to_string());
+            sheets.push((*rng.pick(&["My Sheet", "Q&A", "2024", "A1", "x-y", "日本", "a!b", "US$", "US$ and EUR$", "Q#1"])).to_string());
         }
         if allow.contains("sheet-apostrophe") {
             sheets.push("it's".to_string());
